@@ -11,7 +11,7 @@ def both(name, props, harness, note, quick_timeout=300, thorough_timeout=1500, b
 
 
 for fn in ('find_next_host_delimiter', 'find_next_host_delimiter_special'):
-    both('C01.%s.first@sse2' % fn, ['C01', 'C18', 'C02'], 'c01/call_sv_size.c', roots=[fn],
+    both('C01.%s.first@sse2' % fn, ['C01', 'C18', 'C02'], 'auto', roots=[fn],
          specs={fn: fn + '.spec'}, enforce=fn, loop_contracts=True, defines=['FN=' + fn], includes=INC,
          note='returns the least index >= location holding a host delimiter, else size; SSE2 kernel incl. overlapping tail reload')
 
@@ -27,6 +27,6 @@ for fn, props, unwind, note in [
     ('get_scheme_type', ['C01', 'C19', 'C02'], None, 'scheme type exactly for the six special schemes (perfect hash, branchless_load5, scheme_keys)'),
     ('scheme_get_special_port_sv', ['C01', 'C19', 'C05', 'C02'], None, 'default ports 80/443/80/443/21/0'),
 ]:
-    OBLS.append(Obl('C01.%s.exact' % fn, props, 'P#', 'call_sv.c', roots=[fn], specs={fn: fn + '.spec'}, enforce=fn,
+    OBLS.append(Obl('C01.%s.exact' % fn, props, 'P#', 'auto', roots=[fn], specs={fn: fn + '.spec'}, enforce=fn,
                     defines=['FN=' + fn], includes=PINC, unwind=unwind, timeout=300, note=note + '; input of any length (symbolic-size object), loops bounded by the function\'s own length tests and fully unwound',
                     enums=ENUM_SCHEME if 'scheme' in fn else ()))
